@@ -2,68 +2,36 @@
 
 F3  `_utils.normalize_axis`, integer branch: the body of `if isinstance(axis, Integral):`
     (int(), the `axis += ndim` wrap, the range test, the raise).
-F10 `COO.reshape`: the body of `if any(d == -1 for d in shape):` — the `-1` inference
+F10 `COO.reshape`: the body of `if any(d == -1 for d in shape):` — the `-1` inference, integer
+    arithmetic since commit ac7b716 (it was float division, finding D12):
 
-        extra = int(self.size / np.prod([d for d in shape if d != -1]))
+        known = reduce(operator.mul, (d for d in shape if d != -1), 1)
+        if known == 0 or self.size % known != 0:
+            raise ValueError(...)
+        extra = self.size // known
         shape = tuple([d if d != -1 else extra for d in shape])
 
     and the body of `if self.size != reduce(operator.mul, shape, 1):` (the raise).  Both `if`
     tests are the translator's *selectors*: they are matched by their exact source text, so an
     edit of either test makes translation fail closed; their meaning is transcribed by hand in
-    Model/ShapeOps.v (coo_reshape_shape).
-
-    NOTE the code divides with FLOAT division `/`.  The translator has no floats.  The quotient
-    expression is an `extern` keyed on its exact source text; its hand-written meaning (below,
-    inline because generated files import only Lib/Py.v and Lib/PyExt.v) is
-
-      * b = 0                          -> the exception int() raises on nan / inf
-      * |a| <= 2^53 and |b| <= 2^53    -> the truncated exact quotient (Z.quot): both operands are
-                                          exactly representable, and whenever b divides a the IEEE
-                                          quotient is exact.  THIS is the only part the theorems use
-                                          (domain clause "D12_size_beyond_2^53" = this test failing).
-      * otherwise                      -> round-to-nearest-even float64 arithmetic carried out in Z
-                                          (operands rounded to 53 significant bits, correctly rounded
-                                          quotient, truncation).  Validated by correspondence only;
-                                          it is what makes the D12 witness computable.
+    Model/ShapeOps.v (coo_reshape_shape).  The two expressions over the whole tuple (a generator
+    product and a list comprehension) are `extern`s keyed on their exact source text; their
+    hand-written meaning is given inline below (generated files import only Lib/Py.v, Lib/PyExt.v).
+    Should the source go back to a float `/`, the translator (which has no float operator)
+    aborts and every theorem about reshape stops compiling.
 """
 
 UT = "sparse/numba_backend/_utils.py"
 CO = "sparse/numba_backend/_coo/core.py"
 
-# product of the entries of `shape` other than -1   (np.prod([d for d in shape if d != -1]))
-_PROD_NOT_M1 = ("(fold_right (fun v acc => match as_int v with Some d => if d =? -1 then acc else d * acc "
-                "| None => acc end) 1 l_)")
+# reduce(operator.mul, (d for d in shape if d != -1), 1): product of the entries other than -1
+PROD_NOT_M1 = (
+    "(match shape with\n"
+    " | VTuple l_ => Ok (VInt (fold_right (fun v acc => match as_int v with Some d => if d =? -1 then acc else d * acc "
+    "| None => acc end) 1 l_))\n"
+    " | _ => Raise TypeError end)")
 
-# round a positive integer to 53 significant bits, ties to even (int -> float64 conversion)
-_RNE_INT = ("(fun n : Z => if n <? 2 ^ 53 then n else "
-            "let s := Z.log2 n - 52 in let m := n / 2 ^ s in let r := n mod 2 ^ s in "
-            "let h := 2 ^ (s - 1) in "
-            "let m' := if orb (h <? r) (andb (r =? h) (Z.odd m)) then m + 1 else m in m' * 2 ^ s)")
-
-# int(x / y) for positive floats x, y holding integers: correctly rounded quotient, truncated
-_RNE_QUOT_TRUNC = ("(fun x y : Z => "
-                   "let e0 := Z.log2 x - Z.log2 y - 52 in "
-                   "let sig := fun e : Z => if 0 <=? e then x / (y * 2 ^ e) else (x * 2 ^ (- e)) / y in "
-                   "let e := if 2 ^ 52 <=? sig e0 then e0 else e0 - 1 in "
-                   "let num := if 0 <=? e then x else x * 2 ^ (- e) in "
-                   "let den := if 0 <=? e then y * 2 ^ e else y in "
-                   "let m := num / den in let r := num mod den in "
-                   "let m' := if orb (den <? 2 * r) (andb (2 * r =? den) (Z.odd m)) then m + 1 else m in "
-                   "if 0 <=? e then m' * 2 ^ e else m' / 2 ^ (- e))")
-
-FLOAT_QUOT = (
-    "(match shape, as_int size with\n"
-    " | VTuple l_, Some a_ =>\n"
-    "   let b_ := " + _PROD_NOT_M1 + " in\n"
-    "   if b_ =? 0 then (if a_ =? 0 then Raise ValueError else Raise OverflowError)\n"
-    "   else if andb (Z.abs a_ <=? 2 ^ 53) (Z.abs b_ <=? 2 ^ 53) then Ok (VInt (Z.quot a_ b_))\n"
-    "   else (* D12_size_beyond_2^53: float64 arithmetic, by correspondence only *)\n"
-    "     let rne_ := " + _RNE_INT + " in\n"
-    "     let qt_ := " + _RNE_QUOT_TRUNC + " in\n"
-    "     if a_ =? 0 then Ok (VInt 0) else\n"
-    "     Ok (VInt (Z.sgn a_ * Z.sgn b_ * qt_ (rne_ (Z.abs a_)) (rne_ (Z.abs b_))))\n"
-    " | _, _ => Raise TypeError end)")
-
+# tuple([d if d != -1 else extra for d in shape])
 SUBST_M1 = (
     "(match shape, as_int extra with\n"
     " | VTuple l_, Some e_ => Ok (VTuple (map (fun v => match as_int v with Some d => if d =? -1 then VInt e_ else v "
@@ -77,7 +45,8 @@ FILES = {
         dict(name="g_reshape_infer", file=CO, func="COO.reshape", callable=False,
              selector=("if", "any((d == -1 for d in shape))"), params=["shape", "size"], result=["shape"],
              extern={
-                 "self.size / np.prod([d for d in shape if d != -1])": FLOAT_QUOT,
+                 "reduce(operator.mul, (d for d in shape if d != -1), 1)": PROD_NOT_M1,
+                 "self.size": "Ok size",
                  "tuple([d if d != -1 else extra for d in shape])": SUBST_M1,
              }),
         dict(name="g_reshape_size_mismatch", file=CO, func="COO.reshape", callable=False,
